@@ -4,10 +4,11 @@ pub mod c07;
 pub mod c09;
 pub mod c10;
 pub mod c14;
+pub mod c16;
 pub mod c17;
 
 pub fn all() -> Vec<&'static str> {
-    vec!["C07", "C09", "C10", "C14", "C17"]
+    vec!["C07", "C09", "C10", "C14", "C16", "C17"]
 }
 
 pub fn get(id: &str) -> Box<dyn Prop> {
@@ -17,6 +18,7 @@ pub fn get(id: &str) -> Box<dyn Prop> {
         "C09" => Box::new(c09::C09),
         "C10" => Box::new(c10::C10),
         "C14" => Box::new(c14::C14),
+        "C16" => Box::new(c16::C16),
         "C17" => Box::new(c17::C17),
         _ => crate::infra::machinery_exit(&format!("unknown property {id}")),
     }
